@@ -17,6 +17,8 @@ NOTES = {
     "C06-N": "thorough tier only: needs one sysex with more than 2^32 data bytes (same group as C06-H, 'sysex-beyond-2^32-bytes')",
     "C17-N": "the reader of the in-port dies on a line of more than 64 KiB; nothing arrives any more, so the run ends 'inconclusive' (sentinel never observed), never 'held': an asynchronous pipeline gives no proof of loss",
     "C14-P": "manifests only on streams outside C14's stated domain (data bytes without status directly behind a sysex: the sysex has cancelled the running status, so this is no legal elision); caught by C06, which quantifies over all byte streams",
+    "C14-R": "the same mechanism as C14-P (a sysex the listener did not ask for no longer cancels the running status): shows only on streams outside C14's stated domain; caught by C06",
+    "C04-R": "a single real-time byte that the listener's options filter out swallows the time that had passed (testdrv): the listener of C04 asks for every class, so nothing is filtered there; what a switched-off class may not do to the time stamps of the others is C14's statement, and C14 (l1-filter-timestamp) and C13 (delta) catch it",
     "C17-F": "detection depends on which helper process dies first: violated (Send fails) in most runs, otherwise inconclusive (probe never observed), never 'held'",
 }
 
@@ -69,6 +71,8 @@ FIRST_PASS_MISSES = {
     "N": ["C01-N", "C02-N", "C05-N", "C06-N", "C08-N", "C09-N", "C10-N", "C11-N", "C12-N", "C13-N", "C14-N", "C17-N", "C18-N", "C19-N", "C20-N"],
     "O": ["C01-O", "C02-O", "C12-O", "C13-O", "C18-O"],
     "P": ["C01-P", "C02-P", "C07-P", "C14-P", "C17-P"],
+    "Q": ["C08-Q", "C09-Q", "C14-Q"],
+    "R": ["C01-R", "C02-R", "C04-R", "C07-R", "C11-R", "C12-R", "C14-R", "C15-R"],
 }
 summary = ["| wave | changes | caught by the quick check of their own property | not caught by it |", "|---|---|---|---|"]
 for wave, (n, okn, miss) in per_wave.items():
